@@ -377,11 +377,39 @@ Proof.
     try discriminate; now apply Hk.
 Qed.
 
+(** m, run without pending event, returns Ok *)
+Definition OKD {A} (m : M A) : Prop :=
+  forall w, w_inj w = NoInj -> exists a w', m w = (ROk a, w') /\ w_inj w' = NoInj.
+
+Lemma OKD_ret {A} (a : A) : OKD (ret a).
+Proof. intros w I. exists a, w. auto. Qed.
+
+Lemma OKD_attempt {A} (m : M A) : nice m -> OKD (attempt m).
+Proof.
+  intros Nm w I. unfold attempt, catch, bind, ret.
+  destruct (m w) as [[a|e|] w1] eqn:E1; destruct (Nm _ _ _ E1) as (M1 & _); destruct (M1 I) as [I1 NK]; try discriminate; eauto.
+Qed.
+
+Lemma OKD_andthen {A B} (m : M A) (k : M B) : OKD m -> OKD k -> OKD (m ;; k).
+Proof.
+  intros Hm Hk w I. destruct (Hm w I) as (a & w1 & E1 & I1). unfold andthen, bind. rewrite E1. now apply Hk.
+Qed.
+
+Lemma AT_andthen_okd {A B} (m : M A) (k : M B) : OKD m -> AT k -> AT (m ;; k).
+Proof.
+  intros Hm Hk w I. destruct (Hm w I) as (a & w1 & E1 & I1). unfold andthen, bind. rewrite E1. now apply Hk.
+Qed.
+
 Create HintDb fedb.
 #[global] Hint Resolve FE_ret FE_throw FE_get_tree FE_get_closed FE_step : fedb.
 
+Ltac okd_tac :=
+  repeat first [ apply OKD_ret | apply OKD_attempt; solve [auto 1 with nicedb nocore | nice_tac] | apply OKD_andthen ].
+
 Ltac at_tac :=
-  repeat first [ apply AT_throw; reflexivity | apply AT_attempt_andthen; [solve [auto 1 with nicedb nocore | nice_tac]|] ].
+  repeat first [ apply AT_throw; reflexivity | apply AT_attempt_andthen; [solve [auto 1 with nicedb nocore | nice_tac]|]
+               | apply AT_andthen_okd; [solve [okd_tac]|]
+               | match goal with |- AT (andthen (if ?x then _ else _) _) => destruct x end ].
 
 Ltac fe_tac :=
   repeat first
